@@ -919,6 +919,7 @@ def run(tier, seed):
             oc.violation({'property': PROP, 'kind': 'frame-hypothesis-fails-in-model',
                           'unchecked': 'C18.plot_frame_partial hypothesis `settled` after a plot', 'program': r['prog'],
                           'at': r['unsettled'], 'predicate_failures': r['fails']}, found_input=bool(r['fails']))
+    sem = common.pysem_stage(oc, PROP, ['draw'], seed, tier)
     if not proof_ok and not oc.violations:
         oc.violation({'property': PROP, 'kind': 'proof-obligation-broken', 'unchecked': lean.get('failed'),
                       'build_output': lean.get('build_output', '')[-3000:], 'axioms': lean.get('axioms')}, found_input=False)
@@ -933,6 +934,7 @@ def run(tier, seed):
         'trusted_base': common.TRUSTED_BASE + ['matplotlib (Agg): only that drawing a component does not raise'],
         'theorems': lean.get('theorems', []),
         'axioms': lean.get('axioms', {}),
+        **sem,
         'evaluations': len(results),
         'plots': n_plots,
         'distinct_nontrivial': len(nontrivial),
